@@ -5,6 +5,7 @@ import (
 	"fmt"
 	"os"
 	"path/filepath"
+	"strings"
 	"time"
 )
 
@@ -115,7 +116,7 @@ func tryReplay(p *prepared, rf *replayFile, wantSig string, attempts int) (bool,
 		}
 		r := runWorker(workerSpec{Bin: p.BinPlain, Args: []string{"-probe", pf}, Timeout: 2 * time.Minute})
 		os.Remove(pf)
-		if r.ProbeRes == nil {
+		if r.ProbeRes == nil || strings.HasPrefix(*r.ProbeRes, "abort:") {
 			return false, nil, nil
 		}
 		c := *rf
